@@ -113,10 +113,14 @@ Boolean AddChunk(ChunkList* NChunk, LargeWord NewStart, LargeWord NewLen, Boolea
                 }
             }
             if (Found) {
+                PartSum = NChunk->Chunks[f1].Length + NChunk->Chunks[f2].Length;
                 SetChunk(
                         NChunk->Chunks + f1, NChunk->Chunks[f1].Start,
                         NChunk->Chunks[f1].Length, NChunk->Chunks[f2].Start,
                         NChunk->Chunks[f2].Length);
+                if (Warn && (PartSum != NChunk->Chunks[f1].Length)) {
+                    Result = True;
+                }
                 NChunk->Chunks[f2] = NChunk->Chunks[--NChunk->RealLen];
             }
         } while (Found);
